@@ -24,6 +24,8 @@ type Batch struct {
 	Workers         int
 	NoRace          bool
 	HangIsViolation bool
+	RaceProp        string // property a race report in this batch is filed under (default C17)
+	RaceOwn         string // ... but only if its signature mentions this substring
 	Prepare         func(overlay string)
 	Real, Stub      []string
 }
@@ -50,6 +52,8 @@ func (p *PropSpec) owns(prop string) bool {
 
 var seamsS1 = Seams{Sync: "d2/lazymap,restlicodec", Add: "overlayfiles/restlicodec/zz_verif_export.go=restlicodec"}
 
+var seamsS2 = Seams{Sync: "d2/lazymap,d2", MapOrder: "d2", Add: "overlayfiles/d2/zz_verif_export.go=d2"}
+
 var props = map[string]*PropSpec{}
 
 func reg(p *PropSpec) { props[p.ID] = p }
@@ -58,16 +62,53 @@ func init() {
 	reg(&PropSpec{
 		ID: "C18",
 		Batches: []Batch{
-			{Pkg: "scen/s1", Scen: "lazymap", Cfg: "", Seams: seamsS1, Quick: 40000, Thorough: 3000000, ThoroughSecs: 1500,
+			{Pkg: "scen/s1", Scen: "lazymap", Cfg: "", Seams: seamsS1, RaceProp: "C18", RaceOwn: "lazymap", Quick: 40000, Thorough: 3000000, ThoroughSecs: 1500,
 				Real: []string{"v2/d2/lazymap (LoadOrStore, Load, Store; only its sync import is swapped for the scheduler-aware shim, which calls the real sync.Map / sync.WaitGroup)"},
 				Stub: []string{"goroutine scheduling (token kernel)"}},
-			{Pkg: "scen/s1", Scen: "lazymap", Cfg: "deepcompute=1,keys=1", Seams: seamsS1, Quick: 10000, Thorough: 500000, ThoroughSecs: 600},
+			{Pkg: "scen/s1", Scen: "lazymap", Cfg: "deepcompute=1,keys=1", Seams: seamsS1, RaceProp: "C18", RaceOwn: "lazymap", Quick: 10000, Thorough: 500000, ThoroughSecs: 600},
 		},
 		Rule: "each run draws 2-4 client tasks x 1-3 operations from {LoadOrStore(k,f), Load(k), Store(k,v)} over 2 keys (every value unique; f yields inside the computation) and one schedule (uniform / PCT priorities / sticky) from the choice stream; yield points are the shim's sync.Map and WaitGroup operations. A case is non-trivial and distinct by its (workload text) — two runs with the same operations but different schedules count once here; distinct schedules are reported separately as distinct_schedules (hash of the executed (task, yield point) sequence).",
 		Assume: []string{
 			"sync.Map and sync.WaitGroup operations are atomic steps (the shim yields before each, then calls the real one)",
 			"exploration is sampled, not exhaustive: a clean batch is evidence, not proof",
 			"porcupine v1.3.0 decides linearizability of each recorded history (Unknown = timeout is counted as a probe, never reported)",
+		},
+	})
+}
+
+func init() {
+	reg(&PropSpec{
+		ID: "C19",
+		Batches: []Batch{
+			{Pkg: "scen/s2", Scen: "feed", Cfg: "", Seams: seamsS2, NoRace: true, Quick: 60000, Thorough: 4000000, ThoroughSecs: 1500,
+				Real: []string{"v2/d2: waitForUriUpdates / waitForServiceUpdates loops, handleUriUpdate, handleServiceUpdate, serviceUris.copy, chooseHost / filterAndChooseHost, Uri.UnmarshalJSON, ResolveHostnameAndContextForQuery, getServiceUris on pre-seeded state", "v2/d2/lazymap"},
+				Stub: []string{"ZooKeeper and TreeCache (replaced by a pre-filled event channel, as in the repository's own tests)", "math/rand source behind d2.rng (values from the choice stream incl. exactly 0 and 1-2^-53)", "Go map iteration order in package d2 (permutation from the choice stream)", "goroutine scheduling (token kernel)"}},
+		},
+		Rule: "each run draws a service definition (6 prioritized-scheme lists), 0-2 pre-applied and 0-8 in-run announcement events over 3 znodes from {set (1-3 hosts x scheme x weight incl. 0 and non-dyadic), delete, malformed JSON, weight-less partition-only, root-path}, 0-2 service updates and 0-3 resolver tasks x 1-3 resolutions, plus the schedule, map orders and random values. A case is distinct by its (pre events, in-run events, service sequence) text and non-trivial when it has at least one event; schedules are counted separately.",
+		Assume: []string{
+			"the update loops are driven through the in-package entry points waitForUriUpdates / waitForServiceUpdates with a pre-filled channel (TreeCache's own coalescing is not part of this scenario)",
+			"range-over-map in package d2 is rewritten to iterate in a simulator-chosen order with per-iteration loop variables (Go >= 1.22 semantics; v2/go.mod says 1.18, where the variable is per loop) — a bug that depends on capturing the per-loop variable would be masked",
+			"sampled exploration; a clean batch is evidence, not proof",
+		},
+	})
+}
+
+func init() {
+	reg(&PropSpec{
+		ID: "C17",
+		Batches: []Batch{
+			{Pkg: "scen/s1", Scen: "registry", Cfg: "", Seams: seamsS1, Quick: 6000, Thorough: 300000, ThoroughSecs: 600,
+				Real: []string{"v2/restlicodec custom-typeref registry (RegisterCustomTyperef, CustomTyperefMarshaler look-ups, sync.Map behind the shim)"},
+				Stub: []string{"goroutine scheduling (token kernel; parking by raw pipe syscalls so the race detector sees only the program's own synchronisation)"}},
+			{Pkg: "scen/s2", Scen: "feed", Cfg: "", Seams: seamsS2, Quick: 12000, Thorough: 600000, ThoroughSecs: 900,
+				Real: []string{"v2/d2 update loops, snapshots, host selection incl. the package-level random generator (a real unsynchronised math/rand source is stepped on every draw), v2/d2/lazymap"},
+				Stub: []string{"ZooKeeper / TreeCache (channel feed)", "values handed out by the random source", "map iteration order in package d2"}},
+		},
+		Rule: "runs of scenarios S1-registry, S2-feed and S4-rpc under `go test -race` with the serial token scheduler: N concurrent tasks sharing one registry / one d2.Client / one handler and client. A run is non-trivial when at least two tasks touch the shared object; distinct by workload text.",
+		Assume: []string{
+			"the token kernel parks tasks with raw read/write syscalls that ThreadSanitizer does not treat as synchronisation; every happens-before edge the detector sees is the program's own (plus one channel send/receive per simulated network message)",
+			"the race detector keeps a bounded access history per memory word; runs are short to make eviction unlikely",
+			"sampled exploration; a clean batch is evidence, not proof",
 		},
 	})
 }
